@@ -78,6 +78,9 @@ Proof.
   intro H. apply orb_false_iff in H. destruct H as [H _]. exact H.
 Qed.
 
+Lemma ctor_withheld_own a : ctor_withheld a false false = a.
+Proof. destruct a; reflexivity. Qed.
+
 (* ---- the cluster ----------------------------------------------------------------------------------- *)
 Lemma analyse_exact v ms m : In m (analyse v ms) <-> In m ms /\ under_test v m = true.
 Proof. apply filter_In. Qed.
